@@ -3,6 +3,7 @@ import Driver.Notif
 import Driver.Mint
 import Driver.Filetree
 import Driver.Storage
+import Driver.Genesis
 open Lean (Json)
 
 /-- Line protocol: one JSON step record per line on stdin; one verdict line per record on stdout:
@@ -21,6 +22,7 @@ def checkLine (line : String) : String :=
       | "mint" => Driver.Mint.check j
       | "filetree" => Driver.Filetree.check j
       | "storage" => Driver.Storage.check j
+      | "genesis" => Driver.Genesis.check j
       | "path" => Driver.Filetree.checkPath j
       | "panic" => .ok (some s!"panic {(j.getObjValAs? String "where").toOption.getD ""}: {(j.getObjValAs? String "panic").toOption.getD ""}")
       | m => .error s!"unknown mod {m}"
